@@ -48,6 +48,23 @@ int main(int argc, char** argv)
     { tn<char*> t; t.assign_raw_pointer(sb, buf); Out o = guarded([&] { rlbox::memcpy(sb, t, (const char*)nullptr, n); }); expect("memcpy", k + "|null-src", o, true, false, "null source"); }
     { tn<char*> t = nullptr; Out o = guarded([&] { rlbox::memcmp(sb, t, buf, n); }); expect("memcmp", k + "|null", o, true, false, "null operand"); }
   }
+  // element counts whose byte size wraps 2^64: the request exceeds the address space and must be refused, not forwarded to the backend
+  {
+    short* sbuf = (short*)buf;
+    double* dbuf = (double*)buf;
+    for (size_t n : { ((size_t)1 << 63) + 2, ((size_t)1 << 63) + 100, (size_t)-1 / 2 + 2 }) {
+      std::string k = "noop|short x " + std::to_string(n);
+      n_eval++;
+      { bool copied = false; Out o = guarded([&] { (void)rlbox::copy_memory_or_grant_access(sb, sbuf, n, false, copied); }); if (o != O_ABORT) viol("C10 backend=noop op=copy_memory_or_grant_access kind=wrapping-count-proceeded", k, "a count of " + std::to_string(n) + " shorts (byte size wraps 2^64) was not refused"); }
+      { bool copied = false; tn<short*> t; t.assign_raw_pointer(sb, sbuf); Out o = guarded([&] { (void)rlbox::copy_memory_or_deny_access(sb, t, n, false, copied); }); if (o != O_ABORT) viol("C10 backend=noop op=copy_memory_or_deny_access kind=wrapping-count-proceeded", k, "a count of " + std::to_string(n) + " shorts (byte size wraps 2^64) was not refused"); }
+    }
+    for (size_t n : { ((size_t)1 << 61) + 1, ((size_t)1 << 62) + 3 }) {
+      std::string k = "noop|double x " + std::to_string(n);
+      n_eval++;
+      { bool copied = false; Out o = guarded([&] { (void)rlbox::copy_memory_or_grant_access(sb, dbuf, n, false, copied); }); if (o != O_ABORT) viol("C10 backend=noop op=copy_memory_or_grant_access kind=wrapping-count-proceeded", k, "a count of " + std::to_string(n) + " doubles (byte size wraps 2^64) was not refused"); }
+      { bool copied = false; tn<double*> t; t.assign_raw_pointer(sb, dbuf); Out o = guarded([&] { (void)rlbox::copy_memory_or_deny_access(sb, t, n, false, copied); }); if (o != O_ABORT) viol("C10 backend=noop op=copy_memory_or_deny_access kind=wrapping-count-proceeded", k, "a count of " + std::to_string(n) + " doubles (byte size wraps 2^64) was not refused"); }
+    }
+  }
   free(buf);
   sb.destroy_sandbox();
   stat("evaluations", n_eval);
